@@ -17,11 +17,33 @@ namespace c14 {
       std::size_t steps = 0;
       for (It it = s.begin(); it != s.end() and steps < cap; ++it, ++steps) fwd.push_back(guardL([&] { return lab.get(*it); }));
       steps = 0;
-      for (It it = s.begin(); it != s.end() and steps < cap; ++steps) { It cur = it++; fwd_post.push_back(guardL([&] { return lab.get(*cur); })); }
+      bool postfix_result = true;             // `it++` / `it--` hand back the position the iterator HAD (the `*it--` / `*it++` idioms)
+      for (It it = s.begin(); it != s.end() and steps < cap; ++steps) {
+         const It before = it;
+         It cur = it++;
+         if (cur != before) postfix_result = false;
+         fwd_post.push_back(guardL([&] { return lab.get(*cur); }));
+      }
       steps = 0;
       for (It it = s.end(); it != s.begin() and steps < cap; ++steps) { --it; bwd.push_back(guardL([&] { return lab.get(*it); })); }
       steps = 0;
-      for (It it = s.end(); it != s.begin() and steps < cap; ++steps) { it--; bwd_post.push_back(guardL([&] { return lab.get(*it); })); }
+      for (It it = s.end(); it != s.begin() and steps < cap; ++steps) {
+         const It before = it;
+         It old = it--;
+         if (old != before) postfix_result = false;
+         bwd_post.push_back(guardL([&] { return lab.get(*it); }));
+      }
+      {  // a backward walk written with the postfix form: `*it--` yields the element AT the position held, then steps back
+         std::vector<std::string> walk;
+         steps = 0;
+         if (n > 0)
+            for (It it = s.position(n - 1); steps < cap; ++steps) {
+               const bool first = it == s.begin();
+               walk.push_back(guardL([&] { return lab.get(*it--); }));
+               if (first) break;
+            }
+         if (walk != bwd) postfix_result = false;
+      }
       auto show = [](const std::vector<std::string>& v) {
          std::string r = "[";
          for (std::size_t i = 0; i < v.size(); ++i) { if (i) r += ','; r += v[i]; }
@@ -50,6 +72,7 @@ namespace c14 {
             catch (const std::logic_error&) { }
          }
       os << "\n@wide_positions_refused=" << (wide ? 1 : 0);
+      os << "\n@postfix_result=" << (postfix_result ? 1 : 0);
       os << "\n@postfix=" << (fwd == fwd_post and bwd == bwd_post ? 1 : 0) << "\n@arrow=" << (arrow ? 1 : 0) << "\n@position=" << (pos ? 1 : 0);
       return os.str();
    }
@@ -83,6 +106,134 @@ namespace c14 {
       if (not is_added()) ok = false;
       if (not refused(k + 1)) ok = false;
       return ok;
+   }
+
+   // ---------------------------------------------------------------------------------------------------- look-ups by name
+   // `lookup <scope> <pattern>`: a scope with one member per letter --
+   //    s  a member with a name (and a type) of its own
+   //    r  a member that REPEATS the name of the first named member (`bases`: the same class once more, hence the same type)
+   //    a  a member whose name() RAISES: a base-class subobject is named after its class, and an unnamed class has no name (`bases` only)
+   // and, through the interface (`const ipr::Scope&` reached from the region), `scope[name of member i]` for every member that has
+   // a name, then `scope[a name nobody has]`.  One token per question: `!L` refused, `-` nothing found, `~` member without a name,
+   // `o(T;B;F)` an overload set with T = its type(), B = overload[type of member i], F = overload[a type no member has].
+   namespace {
+      template<class F> std::string tokenL(F&& f) { return guardL(std::forward<F>(f)); }
+
+      std::string ask(const ipr::Scope& sc, const ipr::Name& n, const ipr::Type* own, const ipr::Type& foreign, const Labels& lab)
+      {
+         return tokenL([&]() -> std::string {
+            ipr::Optional<ipr::Overload> ovl = sc[n];
+            if (not ovl.is_valid()) return "-";
+            const ipr::Overload& o = ovl.get();
+            auto pick = [&](const ipr::Type& t) {
+               return tokenL([&]() -> std::string { auto d = o[t]; return d.is_valid() ? lab.get(d.get()) : std::string("-"); });
+            };
+            return "o(" + tokenL([&] { return lab.get(o.type()); }) + ";" + (own ? pick(*own) : std::string("-")) + ";" + pick(foreign) + ")";
+         });
+      }
+   }
+
+   std::string lookup_op(Ctx& c, const std::string& scope_kind, const std::string& pattern)
+   {
+      auto& L = c.lex;
+      const std::string pat = pattern == "-" ? std::string() : pattern;
+      Labels lab;
+      std::vector<const ipr::Name*> names;            // per member: its name, null when name() raises
+      std::vector<const ipr::Type*> types;            // per member: its type
+      const ipr::Name* first_name = nullptr;
+      std::size_t first_named = 0;
+      const ipr::Scope* sc = nullptr;
+      auto put_once = [&](const ipr::Type& t, std::size_t i) { if (lab.get(t) == "?") lab.put(t, "t" + std::to_string(i)); };
+      auto name_for = [&](char ch, std::size_t i) -> const ipr::Name& {
+         if (ch == 'r' and first_name != nullptr) return *first_name;
+         const ipr::Name& n = c.fresh_id();
+         if (first_name == nullptr) { first_name = &n; first_named = i; }
+         return n;
+      };
+      if (scope_kind == "bases") {
+         auto* derived = L.make_class(*c.work);
+         std::vector<impl::Class*> classes;
+         for (std::size_t i = 0; i < pat.size(); ++i) {
+            impl::Class* b = nullptr;
+            if (pat[i] == 'r' and first_name != nullptr) b = classes[first_named];
+            else {
+               b = L.make_class(*c.work);
+               if (pat[i] != 'a') b->id = &name_for(pat[i], i);
+            }
+            classes.push_back(b);
+            auto* base = derived->declare_base(*b);
+            lab.put(static_cast<const ipr::Decl&>(*base), "e" + std::to_string(i));
+            put_once(static_cast<const ipr::Type&>(*b), i);
+            names.push_back(b->id.is_valid() ? &b->id.get() : nullptr);
+            types.push_back(b);
+         }
+         sc = &static_cast<const ipr::Region&>(derived->base_subobjects).bindings();
+      }
+      else if (scope_kind == "params") {
+         auto* m = L.make_mapping(*c.work, Mapping_level{1});
+         for (std::size_t i = 0; i < pat.size(); ++i) {
+            if (pat[i] == 'a') return "bad-op";
+            auto& n = name_for(pat[i], i);
+            auto& t = c.T();
+            auto* prm = m->param(n, t);
+            lab.put(static_cast<const ipr::Decl&>(*prm), "e" + std::to_string(i));
+            put_once(t, i);
+            names.push_back(&n);
+            types.push_back(&t);
+         }
+         sc = &m->parameters().region().bindings();
+      }
+      else if (scope_kind == "enums") {
+         auto* en = L.make_enum(*c.work, ipr::Enum::Kind::Scoped);
+         put_once(static_cast<const ipr::Type&>(*en), 0);              // every enumerator has the one enumeration as its type
+         for (std::size_t i = 0; i < pat.size(); ++i) {
+            if (pat[i] == 'a') return "bad-op";
+            auto& n = name_for(pat[i], i);
+            auto* e = en->add_member(n);
+            lab.put(static_cast<const ipr::Decl&>(*e), "e" + std::to_string(i));
+            names.push_back(&n);
+            types.push_back(en);
+         }
+         sc = &en->region().bindings();
+      }
+      else if (scope_kind == "eh") {
+         if (pat != "s") return "bad-op";
+         auto* b = L.make_block(*c.work);
+         auto& n = name_for('s', 0);
+         auto& t = c.T();
+         const ipr::Handler& h = *b->new_handler(n, t);
+         lab.put(static_cast<const ipr::Decl&>(h.exception()), "e0");
+         put_once(t, 0);
+         names.push_back(&n);
+         types.push_back(&t);
+         sc = &h.body().region().enclosing().bindings();
+      }
+      else if (scope_kind == "general") {
+         auto* r = c.work->make_subregion();
+         for (std::size_t i = 0; i < pat.size(); ++i) {
+            if (pat[i] == 'a') return "bad-op";
+            auto& n = name_for(pat[i], i);
+            auto& t = c.T();
+            auto* v = r->declare_var(n, t);
+            lab.put(static_cast<const ipr::Decl&>(*v), "e" + std::to_string(i));
+            put_once(t, i);
+            names.push_back(&n);
+            types.push_back(&t);
+         }
+         sc = &static_cast<const ipr::Region&>(*r).bindings();
+      }
+      else
+         return "bad-op";
+      const ipr::Type& foreign = c.oty(0);
+      std::string line = "byname=[";
+      for (std::size_t i = 0; i < names.size(); ++i)
+         line += (i ? "," : "") + (names[i] == nullptr ? std::string("~") : ask(*sc, *names[i], types[i], foreign, lab));
+      line += "|" + ask(*sc, c.fresh_id(), nullptr, foreign, lab) + "]";
+      // the member sequence is still what was put in (a look-up changes nothing)
+      bool members_ok = sc->elements().size() == names.size();
+      std::size_t i = 0;
+      for (auto& d : sc->elements()) { if (lab.get(d) != "e" + std::to_string(i)) members_ok = false; ++i; }
+      return line + "\n@members_after_lookups=" + (members_ok ? "1" : "0");
    }
 
    std::string seq_op(Ctx& c, const std::string& impl_name, const std::string& pattern, const std::string& view)
